@@ -1,5 +1,4 @@
-//! C03 counterexample search (run only after a Verus unit of C03 reported a failed obligation, to find a concrete
-//! failing input for the replay file). Two parts, both on the real crate:
+//! C03 native search (a bounded exploration of the real crate, run on every check; it also supplies the concrete input when a Verus obligation of the property fails). Two parts, both on the real crate:
 //! (1) every octet string of at most 6 octets over {0, 1, 2, 63, 64, 'a'}: Name::from_slice / RelativeName::
 //!     from_slice accept exactly the valid wire forms (reference checker below);
 //! (2) every sequence of at most 5 NameBuilder operations over sizes that reach the label (63) and name (254/255)
